@@ -13,6 +13,7 @@ import (
 
 	"github.com/brimdata/super/pkg/storage"
 
+	"verif/rep"
 	"verif/vstore"
 )
 
@@ -38,6 +39,8 @@ func confAlphabet() []confOp {
 		{"delete", "d/a", ""}, {"exists", "d/a", ""}, {"exists", "d", ""},
 		{"size", "d/a", ""}, {"list", "d", ""}, {"deleteprefix", "d", ""},
 		{"put2", "d/a", "pq"}, // two write calls
+		// two handles open on the same path at once (h1/h2), writes interleaved
+		{"open1", "d/a", ""}, {"open2", "d/a", ""}, {"w1", "", "10"}, {"w2", "", "9"}, {"close1", "", ""}, {"close2", "", ""},
 	}
 }
 
@@ -53,11 +56,38 @@ func errCls(err error) string {
 	return "err"
 }
 
-func confRun(ctx context.Context, eng storage.Engine, root string, seq []confOp) string {
+func confRun(ctx context.Context, eng storage.Engine, root string, seq []confOp, inPlace bool) string {
 	var b strings.Builder
+	var handles [3]io.WriteCloser
+	defer func() {
+		for _, h := range handles {
+			if h != nil {
+				h.Close()
+			}
+		}
+	}()
 	for _, op := range seq {
 		u := storage.MustParseURI("file://" + filepath.Join(root, op.path))
 		switch op.kind {
+		case "open1", "open2":
+			i := int(op.kind[4] - '0')
+			if handles[i] != nil {
+				handles[i].Close()
+			}
+			w, err := eng.Put(ctx, u)
+			handles[i] = w
+			fmt.Fprintf(&b, "%s;", errCls(err))
+		case "w1", "w2":
+			i := int(op.kind[1] - '0')
+			if handles[i] != nil {
+				handles[i].Write([]byte(op.data))
+			}
+		case "close1", "close2":
+			i := int(op.kind[5] - '0')
+			if handles[i] != nil {
+				fmt.Fprintf(&b, "%s;", errCls(handles[i].Close()))
+				handles[i] = nil
+			}
 		case "put", "put2":
 			w, err := eng.Put(ctx, u)
 			if err != nil {
@@ -102,6 +132,16 @@ func confRun(ctx context.Context, eng storage.Engine, root string, seq []confOp)
 			fmt.Fprintf(&b, "%s:%v;", errCls(err), names)
 		}
 	}
+	if !inPlace {
+		// with atomic puts the visible contents while handles are still open
+		// differ by design; close them before looking.
+		for i, h := range handles {
+			if h != nil {
+				h.Close()
+				handles[i] = nil
+			}
+		}
+	}
 	// final contents
 	for _, p := range []string{"d/a", "d/b"} {
 		u := storage.MustParseURI("file://" + filepath.Join(root, p))
@@ -118,8 +158,27 @@ func confRun(ctx context.Context, eng storage.Engine, root string, seq []confOp)
 }
 
 func vstoreConformance(maxLen int) (traces int, mismatch string, err error) {
+	traces, mismatch, err = vstoreConformanceOver(confAlphabet(), maxLen)
+	if err != nil || mismatch != "" {
+		return
+	}
+	// overlapping handles on one path, deeper
+	var handleOps []confOp
+	for _, op := range confAlphabet() {
+		if strings.HasPrefix(op.kind, "open") || strings.HasPrefix(op.kind, "w") || strings.HasPrefix(op.kind, "close") || (op.kind == "delete") {
+			handleOps = append(handleOps, op)
+		}
+	}
+	depth := maxLen + 1
+	if rep.Thorough() {
+		depth = maxLen + 2
+	}
+	n2, mismatch, err := vstoreConformanceOver(handleOps, depth)
+	return traces + n2, mismatch, err
+}
+
+func vstoreConformanceOver(alpha []confOp, maxLen int) (traces int, mismatch string, err error) {
 	ctx := context.Background()
-	alpha := confAlphabet()
 	base, err := os.MkdirTemp("", "vstore-conf-")
 	if err != nil {
 		return 0, "", err
@@ -132,11 +191,20 @@ func vstoreConformance(maxLen int) (traces int, mismatch string, err error) {
 			n++
 			dir := filepath.Join(base, fmt.Sprint(n))
 			os.MkdirAll(dir, 0o755)
-			real := confRun(ctx, storage.NewFileSystem(), dir, seq)
+			real := confRun(ctx, storage.NewFileSystem(), dir, seq, true)
 			os.RemoveAll(dir)
+			multi := false
+			for _, op := range seq {
+				if strings.HasPrefix(op.kind, "open") {
+					multi = true
+				}
+			}
 			for _, mode := range []vstore.Mode{vstore.File, vstore.Atomic} {
+				if mode == vstore.Atomic && multi {
+					continue // overlapping handles: object-store semantics differ from a file system by design
+				}
 				st := vstore.NewStore(mode)
-				model := confRun(ctx, vstore.NewEngine(st, "c", nil), "/root", seq)
+				model := confRun(ctx, vstore.NewEngine(st, "c", nil), "/root", seq, true)
 				if model != real {
 					mismatch = fmt.Sprintf("mode=%s seq=%v real=%s model=%s", mode, seq, real, model)
 					return false
